@@ -261,6 +261,9 @@ fn single_faults(rep: &mut Report, rng: &mut Rng, h: &mut History, g: &mut Gen, 
             return false;
         };
         rep.distinct(&format!("refused/{}", f.name));
+        if rep.samples.len() < 3 {
+            rep.sample(json!({"fault": f.name, "request": f.bad.to_json(), "error": r.outcome.to_json(), "operations_before": h.ops.len()}));
+        }
         if let Some((cls, detail)) = leftover(&before, &after) {
             // root cause recorded as a finding: annotate() resolves the target (inserting text selections), then inserts the
             // data (creating sets and keys), then the annotation; a failure in a later step does not undo the earlier ones
